@@ -37,10 +37,15 @@ def plan(tier, seed):
     cases += [{'family': 'mixed_kinds', 'cseed': rnd.randrange(1 << 30)} for _ in range(40 if tier == 'quick' else 1000)]
     fam = 'probe:bundle_mixes_discrete_and_gamma' if 'bundle_mixes_discrete_and_gamma' in opened else 'mixed_kinds'
     cases += [{'family': fam, 'cseed': rnd.randrange(1 << 30), 'want': 'bundle_mixes_discrete_and_gamma'} for _ in range(k)]
+    fam = 'probe:several_kernels_one_merged_source' if 'several_kernels_one_merged_source' in opened else 'few_kernels'
+    cases += [{'family': fam, 'cseed': rnd.randrange(1 << 30), 'want': 'several_kernels_one_merged_source', 'kernels': 'few'}
+              for _ in range(2 * k)]
     # Connectivity (matrix / scalar-weight) connections with delays and spread (machinery shared with C16)
     cases += [{'family': 'matrix', 'cseed': rnd.randrange(1 << 30)} for _ in range(40 if tier == 'quick' else 900)]
     # all delayed edges of the model share one (delay, spread) pair - the usual way delays are specified
     cases += [{'family': 'uniform_kernel', 'cseed': rnd.randrange(1 << 30)} for _ in range(40 if tier == 'quick' else 900)]
+    # two or three (delay, spread) pairs shared by the delayed edges of the model: several edges per delay chain, several chains
+    cases += [{'family': 'few_kernels', 'cseed': rnd.randrange(1 << 30)} for _ in range(50 if tier == 'quick' else 1000)]
     return cases
 
 
@@ -71,16 +76,18 @@ def make_case(case, ctx):
             pfrac = rnd.choice([0.3, 0.6, 1.0])
             nd = 0
             mixed = case.get('family') == 'mixed_kinds' or want == 'bundle_mixes_discrete_and_gamma'
-            uniform = case.get('family') == 'uniform_kernel'
+            uniform = case.get('family') in ('uniform_kernel', 'few_kernels') or case.get('kernels') == 'few'
             if uniform:
-                n = rnd.choice([1, 2, 2, 3, 4])
-                d = rnd.uniform(max(2.0, 1.4 * n), max(9.0, 1.4 * n + 4.0)) * dt
-                delta = rnd.uniform(0.02, 0.3) if n == 1 else rnd.uniform(-0.3, 0.3)
-                common = (round(d, 7), round(round(d, 7) / math.sqrt(n + delta), 9))
+                kernels = []
+                for _k in range(1 if case.get('family') == 'uniform_kernel' else rnd.choice([2, 2, 3])):
+                    n = rnd.choice([1, 2, 2, 3, 4])
+                    d = rnd.uniform(max(2.0, 1.4 * n), max(9.0, 1.4 * n + 4.0)) * dt
+                    delta = rnd.uniform(0.02, 0.3) if n == 1 else rnd.uniform(-0.3, 0.3)
+                    kernels.append((round(d, 7), round(round(d, 7) / math.sqrt(n + delta), 9)))
             for e in edges:
                 if uniform:
                     if rnd.random() < pfrac or pfrac == 1.0:
-                        e[3]['delay'], e[3]['spread'] = common
+                        e[3]['delay'], e[3]['spread'] = rnd.choice(kernels)
                         nd += 1
                     continue
                 if mixed and rnd.random() < 0.45:
@@ -106,8 +113,8 @@ def make_case(case, ctx):
             if nd == 0:
                 continue
             solver = rnd.choice(['euler', 'euler', 'euler', 'scipy']) if not mixed else 'euler'
-            vec = rnd.random() < 0.5
-            r2 = c09.delay_risks(spec, solver) | c04.vec_risks(spec) | mixed_risks(spec)
+            vec = rnd.random() < 0.5 or want == 'several_kernels_one_merged_source'
+            r2 = c09.delay_risks(spec, solver) | c04.vec_risks(spec) | mixed_risks(spec) | kernel_risks(spec, vec)
             if mixed and not any(e[3].get('delay') and not e[3].get('spread') for e in edges):
                 continue
             f, r = gen.features(spec)
@@ -120,7 +127,8 @@ def make_case(case, ctx):
         else:
             raise RuntimeError('generator could not satisfy the constraints')
     f, r = gen.features(spec)
-    r = sorted((set(r) - {'vec_partial_input_default'}) | c09.delay_risks(spec, solver) | c04.vec_risks(spec) | mixed_risks(spec))
+    r = sorted((set(r) - {'vec_partial_input_default'}) | c09.delay_risks(spec, solver) | c04.vec_risks(spec) | mixed_risks(spec)
+               | kernel_risks(spec, vec))
     return spec, f, r, solver, vec
 
 
@@ -135,7 +143,22 @@ def mixed_risks(spec):
         sn, so, sv = s_.rsplit('/', 2)
         tn, to, tv = t_.rsplit('/', 2)
         kinds.setdefault((node_group[sn], so, sv), set()).add('gamma' if a.get('spread') else 'discrete')
-    return {'bundle_mixes_discrete_and_gamma'} if any(len(v) > 1 for v in kinds.values()) else set()
+    out = {'bundle_mixes_discrete_and_gamma'} if any(len(v) > 1 for v in kinds.values()) else set()
+    return out
+
+
+def kernel_risks(spec, vec):
+    """vectorized build: a merged source variable whose gamma-kernel edges use more than one (delay, spread) pair"""
+    if not vec:
+        return set()
+    _, edge_list, group, node_group = c04.groups_of(spec)
+    ks = {}
+    for s_, t_, et, a in edge_list:
+        if a.get('delay') and a.get('spread'):
+            sn, so, sv = s_.rsplit('/', 2)
+            if len(group[node_group[sn]]) > 1:
+                ks.setdefault((node_group[sn], so, sv), set()).add((a['delay'], a['spread']))
+    return {'several_kernels_one_merged_source'} if any(len(v) > 1 for v in ks.values()) else set()
 
 
 def run_matrix_case(case, ctx):
@@ -176,7 +199,7 @@ def run_case(case, ctx):
         ref = RefModel(spec)
         ke = [e for e in ref.edges if e.get('chain_keys') is not None]
         res['nontrivial'] = bool(ke)
-        if case.get('family') == 'uniform_kernel':
+        if case.get('family') in ('uniform_kernel', 'few_kernels'):
             mech['uniform_kernel_models'] = 1
         mech['kernel_edges'] = len(ke)
         if any(e['chain_n'] >= 2 for e in ke):
